@@ -163,6 +163,10 @@ def run_cases(prop, gen_name, seed, tier, log, tag=''):
     log.setdefault('cases_s', 0)
     log['cases_s'] = round(log['cases_s'] + dt, 1)
     if rc != 0:
+        # the harness died (e.g. a panic in a goroutine of the code under test): keep what its monitors reported
+        res = {'n': 0, 'mismatch': [], 'specviol': [l[9:] for l in out.split('\n') if l.startswith('IMPLVIOL ')], 'classes': {}, 'file': cf, 'harness_out': out[-600:]}
+        if res['specviol']:
+            return res, None
         return None, 'harness cases failed: ' + out[-2000:]
     rc, dout, dt = run([BUILD + '/vdriver', cf], timeout=3000)
     log.setdefault('driver_s', 0)
